@@ -69,7 +69,7 @@ func init() {
 				guardCmp("count below the configured size", `\w+\.Size\(\)`, "<", `\w+\.config\.Size`),
 				guardCmp("bytes plus the new tx within MaxTxsBytes", `\(.* \+ \w+\.SizeBytes\(\)\)|\(\w+\.SizeBytes\(\) \+ .*\)`, "<=", `\w+\.config\.MaxTxsBytes`),
 			} {
-				c.Check(c.ge().ensures(f, g, 0), spec[0]+"."+spec[1]+" ensures "+g.Name, w.pos(f.Pos()), "nil only behind this comparison", "capacity predicate returns nil without: "+g.Name)
+				c.Check(c.ge().ensures(f, g, 2), spec[0]+"."+spec[1]+" ensures "+g.Name, w.pos(f.Pos()), "nil only behind this comparison", "capacity predicate returns nil without: "+g.Name)
 			}
 		}
 	})
@@ -98,8 +98,8 @@ func init() {
 					if d, ok := describeCallee(call); ok && d.Pkg == "builtin" && d.Name == "append" {
 						n++
 						key := funcKey(f) + " :: keep tx in result"
-						okB, _ := c.ge().guardedLocal(f, call, bytesG, 0)
-						okG, _ := c.ge().guardedLocal(f, call, gasG, 0)
+						okB, _ := c.ge().guardedLocal(f, call, bytesG, 2)
+						okG, _ := c.ge().guardedLocal(f, call, gasG, 2)
 						if okB && okG {
 							c.OK(key+" <= "+bytesG.Name, w.ipos(call), "append is behind the limit check")
 							c.OK(key+" <= "+gasG.Name, w.ipos(call), "append is behind the limit check")
